@@ -99,6 +99,26 @@ def scenario_histories(ctx):
     return hs
 
 
+def subtree_histories():
+    """Renames whose destination lies inside the source (existing or missing target, empty directory or file target, deeper
+    levels, components that begin with dots), and directories whose descendants repeat the directory's own name."""
+    hs = []
+    k = 0
+    base = [{"op": "initialize"}, {"op": "mkdir", "name": "/a", "perm": 0o755}, {"op": "mkdir", "name": "/a/b", "perm": 0o755}, {"op": "createfile", "name": "/a/f", "blob": 1},
+            {"op": "mkdir", "name": "/a/sub", "perm": 0o755}, {"op": "createfile", "name": "/a/sub/g", "blob": 0}, {"op": "mkdir", "name": "/ab", "perm": 0o755}]
+    for dst in ("/a/b", "/a/f", "/a/sub/new", "/a/new", "/a/...", "/a/..b", "/a/.b", "/a/sub/..b", "/a/b/c/d", "/a/sub"):
+        calls = [dict(c) for c in base] + [{"op": "rename", "name": "/a", "name2": dst}, {"op": "chmod", "name": "/a/f", "perm": 0o600}, {"op": "mkdir", "name": "/after", "perm": 0o755}]
+        hs.append({"config": {"rs": [20, 3, 1][k % 3], "cache": "file"}, "blobs": [{"seed": 1, "len": 700}, {"seed": 2, "len": 10}], "obs": FS_OBS, "calls": calls, "_scenario": "own-subtree:" + dst})
+        k += 1
+    for (d, e) in (("/d", "/e"), ("/p/d", "/p/e"), ("/d", "/dd")):
+        calls = [{"op": "initialize"}, {"op": "mkdir", "name": "/p", "perm": 0o755}, {"op": "mkdir", "name": d, "perm": 0o755}, {"op": "mkdir", "name": d + "/d", "perm": 0o755},
+                 {"op": "createfile", "name": d + "/data.txt", "blob": 1}, {"op": "createfile", "name": d + "/d/x.txt", "blob": 0}, {"op": "mkdirall", "name": d + d, "perm": 0o755},
+                 {"op": "rename", "name": d, "name2": e}, {"op": "chmod", "name": e + "/data.txt", "perm": 0o600}, {"op": "removeall", "name": e + "/d"}]
+        hs.append({"config": {"rs": [20, 3, 1][k % 3], "cache": "file"}, "blobs": [{"seed": 1, "len": 700}, {"seed": 2, "len": 10}], "obs": FS_OBS, "calls": calls, "_scenario": "repeated-name:" + d})
+        k += 1
+    return hs
+
+
 def interplay_histories():
     """A written handle kept open across calls that remove or move its entry, and relative spellings of names
     ('a/b', './a/b', '.', '') in every position.  The open-handle histories are not evaluated on M1 (handles are modelled separately, File.v):
@@ -141,6 +161,7 @@ def fs_stream(ctx):
         hs.append(h)
     hs += scenario_histories(ctx)
     hs += interplay_histories()
+    hs += subtree_histories()
     hs += fs_histories(ctx, 40 if quick else 400, 16 if quick else 40, ops_level=True)
     hs += fs_histories(ctx, 30 if quick else 300, 14 if quick else 30, ops_level=False)
     res = hist.run_many(hs)
